@@ -146,14 +146,21 @@ def r03_1(ctx, rr):
             it = n["e"]["args"][0] if n["e"].get("k") == "Call" and n["e"].get("args") else n["e"]
             chain = [c[0] for c in method_chain(F, it)]
             body_txt = None
-            tests = [x for x in walk(n) if x.get("k") == "If" and diverges(F, x["th"]) and not is_debug_only(F, x) and x["c"].get("k") == "Binary" and x["c"]["op"] in ("<", ">")]
+            def _cmp_of(x):
+                c_ = x["c"]
+                while c_.get("k") == "Unary" and c_.get("op") == "!":
+                    c_ = c_["e"]
+                while c_.get("k") == "Block" and not c_.get("stmts") and "expr" in c_:
+                    c_ = c_["expr"]
+                return c_ if c_.get("k") == "Binary" and c_["op"] in ("<", ">", "<=", ">=") else None
+            tests = [x for x in walk(n) if x.get("k") == "If" and diverges(F, x["th"]) and not is_debug_only(F, x) and _cmp_of(x) is not None]
             if not tests:
                 continue
             if "windows" in chain:
                 idiom = "B"
             elif all(c in ("iter", "copied", "cloned", "as_ref", "into_iter") for c in chain):
                 # (A): the compared `prev` local is assigned from the loop variable in the same body
-                c = tests[0]["c"]
+                c = _cmp_of(tests[0])
                 ids = [x.get("id") for x in (c["l"], c["r"]) if x.get("k") == "Path" and x.get("res") == "local"]
                 asg = [x for x in walk(n) if x.get("k") == "Assign" and x["l"].get("k") == "Path" and x["l"].get("id") in ids and x["r"].get("k") == "Path" and x["r"].get("id") in ids]
                 if len(ids) == 2 and asg:
@@ -213,31 +220,59 @@ def F_loc(F, im):
     return "%s:%s" % (F.files[int(fi)], l0)
 
 
-@rule("R04.3", props=["C04"], floor=2, title="STRICT selects the strict comparison in succ_unchecked/pred_unchecked")
+@rule("R04.3", props=["C04"], floor=4, title="STRICT selects the strict comparison in succ_unchecked/pred_unchecked")
 def r04_3(ctx, rr):
+    """Decided per instantiation: the body is analysed once with STRICT = true and once with STRICT = false. Every
+    exit that returns an element found by the scan (a pair whose second component is the decoded element `res`) must
+    have `value < res` (succ, strict) / `value <= res` (succ) / `res < value` / `res <= value` (pred) established,
+    and nothing stronger on the non-strict side (the comparison that decides the exit is the non-strict one)."""
     F = ctx.F()
-    for path in (r"EliasFano<H, L> as traits::indexed_dict::SuccUnchecked>::succ_unchecked$", r"EliasFano<H, L> as traits::indexed_dict::PredUnchecked>::pred_unchecked$"):
+    for path, kind in ((r"EliasFano<H, L> as traits::indexed_dict::SuccUnchecked>::succ_unchecked$", "succ"), (r"EliasFano<H, L> as traits::indexed_dict::PredUnchecked>::pred_unchecked$", "pred")):
         b = F.one(path)
-        found = 0
-        for n in walk(b.body):
-            if n.get("k") == "If" and n["c"].get("k") == "Path" and n["c"].get("name") == "STRICT":
-                found += 1
-                th_ifs = [x for x in walk(n["th"]) if x.get("k") == "If"]
-                el_ifs = [x for x in walk(n["el"]) if x.get("k") == "If"] if "el" in n else []
-                ok = False
-                if th_ifs and el_ifs:
-                    a, c = th_ifs[0]["c"], el_ifs[0]["c"]
-                    if a.get("k") == "Binary" and c.get("k") == "Binary":
-                        strict_ops, loose_ops = {"<", ">"}, {"<=", ">="}
-                        same_operands = show(F, a["l"]) == show(F, c["l"]) and show(F, a["r"]) == show(F, c["r"])
-                        ok = a["op"] in strict_ops and c["op"] in loose_ops and same_operands and \
-                            {a["op"], c["op"]} in ({"<", "<="}, {">", ">="}) and \
-                            show(F, th_ifs[0]["th"]) == show(F, el_ifs[0]["th"])
-                rr.instances += 1
-                rr.check(ok, "%s:strict-branch" % short_fn(b.key),
-                         "%s: the STRICT branch must use the strict comparison and the other branch the non-strict one on the same operands, returning the same pair" % b.key, F.loc(n))
-        if found == 0:
-            raise AnchorMissing("no `if STRICT` in %s" % b.key)
+        vparam = [p for p in b.params if p.get("k") == "PBind" and p["name"] != "self"][0]
+        val = ("var", vparam["name"], vparam["id"])
+        seen_const = any(x.get("k") == "Path" and x.get("name") == "STRICT" for x in walk(b.body))
+        if not seen_const:
+            raise AnchorMissing("no use of the const parameter STRICT in %s" % b.key)
+        for strict in (True, False):
+            exits = []
+
+            def on_node(W, n, K, exits=exits):
+                if n.get("k") == "Ret" and "e" in n and n["e"].get("k") == "Tup" and len(n["e"]["es"]) == 2 and W.debug_depth == 0:
+                    res = W.T.term(n["e"]["es"][1])
+                    exits.append((n, res, K.copy()))
+            W = Walker(F, b, on_node=on_node)
+            W.T.const_subst = {"STRICT": ("bool", strict)}
+            W.run()
+            # the exits that return a scanned element: their second component is compared with the value somewhere
+            scanned = []
+            for n, res, K in exits:
+                rel = []
+                for a in K.atoms:
+                    if a[0] != "le":
+                        continue
+                    m1, m2 = mentions(a[1], lambda x: x == val), mentions(a[2], lambda x: x == val)
+                    if m1 == m2:
+                        continue
+                    other = a[2] if m1 else a[1]
+                    # the other side is (part of) the element returned: the decoded element or its low bits
+                    if other == res or (other[0] not in ("int", "def") and mentions(res, lambda x: x == other)):
+                        rel.append(a)
+                if rel:
+                    scanned.append((n, res, K, rel))
+            rr.instances += 1
+            key = "%s:strict-branch" % short_fn(b.key)
+            if not scanned:
+                rr.violate(key, "%s (STRICT = %s): no exit returning a scanned element under a comparison with the value was found" % (b.key, strict), b.span)
+                continue
+            for n, res, K, rel in scanned:
+                has_strict = any(K.entails(("le", a[1], a[2], -1)) for a in rel)
+                has_loose = True
+                ok = has_strict if strict else (has_loose and not has_strict)
+                rr.ob(ok, key=key, sample={"fn": b.key, "STRICT": strict, "exit": show(F, n)[:60], "established": K.show()[:4]})
+                if not ok:
+                    rr.violate(key, "%s: with STRICT = %s the element returned at `%s` must be %s the value (established: %s): the STRICT instantiation must use the strict comparison and the other one the non-strict one" % (
+                        b.key, str(strict).lower(), show(F, n)[:60], {("succ", True): "> ", ("succ", False): ">= (and not only >)", ("pred", True): "<", ("pred", False): "<= (and not only <)"}[(kind, strict)], "; ".join(K.show()[:5])), F.loc(n))
 
 
 @rule("R04.2", props=["C04", "C12"], floor=3, title="Elias-Fano universe guard before selecting a zero of the high bits")
@@ -352,13 +387,13 @@ def r03_5(ctx, rr):
                         (r"^traits::bit_field_slice::BitFieldSliceIterator::<'a, \w+, B>::new$", 1)):
         b = F.one(path)
         ok = False
-        for n in walk(b.body):
-            if n.get("k") == "If" and diverges(F, n["th"]) and not is_debug_only(F, n):
-                c = n["c"]
-                if c.get("k") == "Binary" and c["op"] in (">", ">="):
-                    l = c["l"]
-                    if l.get("k") == "Path" and l.get("id") == b.params[idx_i]["id"]:
-                        ok = True
+        idx_t = ("var", b.params[idx_i]["name"], b.params[idx_i]["id"])
+        # some panic exit is taken exactly with `len < start` established (whatever the syntax of the guard:
+        # `if start > len { panic!() }`, `assert!(start <= len)`, a match ...)
+        for n, K, W in rejecting_exits(F, b, lambda W, n: is_panic_call(F, n)):
+            for a in K.atoms:
+                if a[0] == "le" and a[3] <= -1 and a[2] == idx_t and ((a[1][0] == "call" and (a[1][1] == "len" or a[1][1].endswith("::len"))) or (a[1][0] == "field" and a[1][2] in ("len", "n"))):
+                    ok = True
         rr.instances += 1
         rr.check(ok, "%s:rejects-above-len" % short_fn(b.key), "%s must panic when the start position exceeds the length" % b.key, b.span)
 
